@@ -1,5 +1,5 @@
 import Driver.Json
-import Pymodbus.Model.Pdu
+import Pymodbus.Model.Codec
 open Lean Pymodbus
 
 namespace Driver
@@ -73,7 +73,8 @@ def jReq : Req → Json
   | .maskWrite a am om => Json.mkObj [("t", "maskWrite"), ("address", jNat a), ("and_mask", jNat am), ("or_mask", jNat om)]
   | .readWrite ra rn wa wn wbc ws => Json.mkObj [("t", "readWrite"), ("read_address", jNat ra), ("read_count", jNat rn),
       ("write_address", jNat wa), ("write_count", jNat wn), ("write_byte_count", jNat wbc), ("write_registers", jNats ws)]
-  | .diag sub m => Json.mkObj [("t", "diag"), ("sub", jNat sub), ("message", jDiagMsg m)]
+  | .diag sub m => Json.mkObj [("t", "diag"), ("sub", jNat sub), ("message", jDiagMsg m),
+      ("cls", Json.str (Impl.diagReqClass sub))]
   | .readExceptionStatus => Json.mkObj [("t", "readExceptionStatus")]
   | .getCommEventCounter => Json.mkObj [("t", "getCommEventCounter")]
   | .getCommEventLog => Json.mkObj [("t", "getCommEventLog")]
@@ -103,7 +104,8 @@ def jResp : Resp → Json
   | .writeRegisters a c => Json.mkObj [("t", "writeRegisters"), ("address", jNat a), ("count", jNat c)]
   | .maskWrite a am om => Json.mkObj [("t", "maskWrite"), ("address", jNat a), ("and_mask", jNat am), ("or_mask", jNat om)]
   | .readWrite rs => Json.mkObj [("t", "readWrite"), ("registers", jNats rs)]
-  | .diag sub m => Json.mkObj [("t", "diag"), ("sub", jNat sub), ("message", jDiagMsg m)]
+  | .diag sub m => Json.mkObj [("t", "diag"), ("sub", jNat sub), ("message", jDiagMsg m),
+      ("cls", Json.str (Impl.diagRespClass sub))]
   | .readExceptionStatus st => Json.mkObj [("t", "readExceptionStatus"), ("status", jNat st)]
   | .getCommEventCounter st c => Json.mkObj [("t", "getCommEventCounter"), ("status", Json.bool st), ("count", jNat c)]
   | .getCommEventLog st ec mc evs => Json.mkObj [("t", "getCommEventLog"), ("status", Json.bool st),
